@@ -180,6 +180,7 @@ pub mod pipeline {
                         }
                     }
                     Operator::Sort(sort_op) => {
+                        in_agg = true;
                         post_agg.push(Pipeline::convert_sort(sort_op, pipeline)?)
                     }
                 }
